@@ -193,6 +193,7 @@ def lifeScript (l : VRing Int) (n : Nat) : List Char → Nat → Option (VRing I
     | 'z' => lifeScript (VRing.resize 0 l n) n rest k
     | 'y' => lifeScript (VRing.copyAndDrop 0 l) n rest k
     | 'm' => lifeScript l.moveAndDrop n rest k
+    | 'g' => lifeScript (VRing.assignAndDrop 0 l 3) n rest k
     | _ => none
 
 def lifeCount (n : Nat) (script : String) : String :=
